@@ -66,6 +66,14 @@ pub fn gen_stream(name: &str, seed: u64, n: usize, tier: &str) -> Vec<String> {
         "run_runtime" => progs::generate_run(&mut rng, n, tier, &["runtime"], "any"),
         "run_gc" => progs::generate_run_gc(&mut rng, n, tier),
         "paths" => progs::generate_paths(&mut rng, n, tier),
+        "run_secp4" => (0..n)
+            .map(|i| {
+                let (p, e) = interp_oracles::secp4_program(&mut rng);
+                let flags = progs::random_flags(&mut rng) & !0x2;
+                format!("RUN s{} chia {:x} 0 - {} {}", i, flags, trees::to_hex(&p), trees::to_hex(&e))
+            })
+            .collect(),
+        "run_sha256tree" => interp_oracles::generate_run_sha256tree(&mut rng, n),
         "op_limits" => progs::generate_op_limits(&mut rng, n, tier),
         "run_default" => progs::generate_run(&mut rng, n, tier, &["chia"], "default"),
         "op" => progs::generate_op(&mut rng, n, tier, None),
@@ -93,6 +101,7 @@ pub fn run_oracle(name: &str, seed: u64, n: usize, tier: &str) -> util::OracleRe
         "ref_vectors" | "ref_findings" => refclvm::oracle(name, &mut rng, n, tier),
         "classic_decoders" => classic::oracle_decoders(&mut rng, n, tier),
         "interp_malachite_limits" => interp_oracles::oracle_malachite_limits(&mut rng, n, tier),
+        "interp_runtime_limits" => interp_oracles::oracle_runtime_limits(&mut rng, n, tier),
         "interp_guards" => interp_oracles::oracle_guards(&mut rng, n, tier),
         "interp_sha256tree" => interp_oracles::oracle_sha256tree(&mut rng, n, tier),
         s if s.starts_with("interp_") => interp_oracles::oracle(&s[7..], &mut rng, n, tier),
